@@ -758,6 +758,48 @@ template<int F, class Src>
     }
 }
 
+// make_elastic_scaled_integer(scaled_integer<Rep, power<E, Radix>>): "hold that initializer exactly" — value only
+// (no digits/exponent are documented for this overload)
+template<class Src>
+[[gnu::noinline]] void scaled_value_program()
+{
+    using SS = cv::scale_of<Src>;
+    using Rep = typename SS::rep;
+    if (!vf::begin(std::string("deduce_value<make_elastic_scaled_integer,") + cv::rep_name<Src>() + ">", false)) return;
+    for (Rep r : vals::lattice<Rep>(1)) {
+        if (!vf::my_row()) continue;
+        std::string const id = vf::to_s(r);
+        if (vf::replaying() && !vf::case_selected(id)) continue;
+        if (vals::is_signed_v<Rep> && r == vals::min_v<Rep>()) {
+            vf::skip_pre();  // elastic types have a symmetric range
+            continue;
+        }
+        Src v = cnl::_impl::from_rep<Src>(r);
+        Props p;
+        vf::Outcome o = vf::run([&] { p = extract_any(cnl::make_elastic_scaled_integer(v)); });
+        vf::validated();
+        Rat const want = Rat::scaled(Big(r), SS::radix, SS::exponent);
+        vf::counted(!want.is_integer());
+        std::string const what = std::string("make_elastic_scaled_integer(") + cv::rep_name<Src>() + " rep " + id + ")";
+        if (vf::want_sample()) vf::sample(what + " -> " + (o.ok() ? props_str(p) : o.str()));
+        std::string const cls = std::string(SS::radix == 2 ? "binary" : "non_binary") + (want.is_integer() ? "/integral" : "/fractional");
+        if (!o.ok()) {
+            vf::outcome(o.str());
+            vf::violation("value/make_elastic_scaled_integer/from_scaled/" + std::string(vf::kind_name(o.kind)) + "/" + cls, id, what + ": " + o.str());
+            continue;
+        }
+        Rat const got = Rat::scaled(p.rep, p.radix, p.exponent);
+        if (got != want) {
+            vf::outcome("wrong_value");
+            vf::violation("value/make_elastic_scaled_integer/from_scaled/value/" + cls, id, what + " is " + props_str(p) + " == " + got.str() + ", initializer is " + want.str());
+        } else if (!holds(p.rep, p.digits)) {
+            vf::outcome("type_too_narrow");
+            vf::violation("value/make_elastic_scaled_integer/from_scaled/type_too_narrow/" + cls, id, what + " is " + props_str(p) + ": the rep needs " + std::to_string(p.rep.bit_length()) + " digits");
+        } else
+            vf::outcome("ok_make_elastic_scaled_integer_from_scaled");
+    }
+}
+
 template<class Src>
 void value_programs()
 {
@@ -781,6 +823,14 @@ static void group()
     value_programs<u16>();
     value_programs<i32>();
     value_programs<u32>();
+    scaled_value_program<cnl::scaled_integer<int, cnl::power<-2, 10>>>();
+    scaled_value_program<cnl::scaled_integer<i16, cnl::power<-1, 10>>>();
+    scaled_value_program<cnl::scaled_integer<int, cnl::power<2, 10>>>();
+    scaled_value_program<cnl::scaled_integer<int, cnl::power<-3>>>();
+    scaled_value_program<cnl::scaled_integer<u8, cnl::power<-2>>>();
+    scaled_value_program<cnl::scaled_integer<int, cnl::power<-2, 3>>>();
+    scaled_value_program<cnl::scaled_integer<i8, cnl::power<-1, 16>>>();
+    scaled_value_program<cnl::scaled_integer<i64, cnl::power<-4, 10>>>();
 #else
     value_programs<i64>();
     value_programs<u64>();
